@@ -1,6 +1,8 @@
 """C13  Operator stop is final until operator start."""
 import random
 
+from vlib import budget
+
 from vlib import session as S
 from vlib.monitors import StopMonitor
 
@@ -16,7 +18,7 @@ SHARD_TIMEOUT = {'quick': 240, 'thorough': 1500}
 DEPTH = {'quick': (3, 7), 'thorough': (4, 10)}
 PARTS = {'quick': 7, 'thorough': 8}
 CFGS = {'quick': [{}, {'connect_retry_time': 10}], 'thorough': [{}, {'connect_retry_time': 10}, {'connect_retry_time': 40, 'idle_hold_time': 5, 'hold_time': 9}]}
-WALKS = {'quick': (256, 100), 'thorough': (1600, 200)}
+WALKS = {'quick': (256, 100), 'thorough': (8000, 300)}
 BUDGET = {'quick': 45, 'thorough': 700}
 
 # prefix-seeded exploration (states a search from boot reaches only at depth 8+): a session under a pending boot
@@ -121,6 +123,8 @@ def run_shard(sh):
             # hostile well-framed messages (mutated unit-test corpus) among the peer's messages
             alpha = ['OPEN', 'KA', 'OPEN_h9', 'NOTI_CEASE', 'BADLEN', 'UPD1'] + S.fuzz_alphabet(rng, sh['fuzz'])
         for i in range(sh['n']):
+            if budget.expired():
+                break
             r = S.random_walk(cfg, [StopMonitor], alpha, rng, sh['length'], multi=True,
                               weights={'TICK': 6, 'ACCEPT': 3, 'REFUSE': 2, 'STOP': 1.5, 'START': 1.0})
             if not r.monitors[0].stopped:
@@ -132,7 +136,7 @@ def run_shard(sh):
             res['distinct'].append('walk|%d|%d' % (sh['seed'], i))
             if i == 0:
                 res['samples'].append(dict(cfg=sh['time_opts'], walk=r.seq[:40]))
-        res['counters'] = dict(walks=sh['n'], **stats)
+        res['counters'] = dict(walks=res['evaluations'], **stats)
     for k, v in by_state.items():
         res['counters']['stops_in_state_%s' % k] = v
     res['violations'] = list(viol.values())
